@@ -293,7 +293,9 @@ def lint_gates():
     for st in _body(f):
         if isinstance(st, ast.If) and not st.orelse and len(st.body) == 1 and ast.unparse(st.body[0]) == "return []":
             t = ast.unparse(st.test)
-            gates.append({"_is_hardcoded_excluded(file_path)": "GHard", "self.ignore_parser.is_ignored(file_path)": "GIgnored"}.get(t, "GOther"))
+            gates.append({"_is_hardcoded_excluded(self._path_inside_project(file_path))": "GHard",      # decided on the project-relative path
+                          "_is_hardcoded_excluded(file_path)": "GHardAbs",                                 # decided on the path as given (absolute: parents included)
+                          "self.ignore_parser.is_ignored(file_path)": "GIgnored"}.get(t, "GOther"))
         else:
             break
     rest = [ast.unparse(s) for s in _body(f)[len(gates):]]
@@ -302,6 +304,11 @@ def lint_gates():
                      "context = FileLintContext(file_path, language, metadata=metadata)", "return self._execute_rules(rules, context)"]
     if rest != expected_tail:
         raise Unsupported("lint_file: body after the gates changed")
+    if "GHard" in gates:
+        got = [ast.unparse(x) for x in _body(find_func(cls, "_path_inside_project"))]
+        want = ["try:\n    return file_path.resolve().relative_to(self.project_root.resolve())\nexcept (ValueError, OSError):\n    return file_path"]
+        if got != want:
+            raise Unsupported("_path_inside_project: body changed")
     return defn("lint_gates", "list gate", "[" + "; ".join(gates) + "]")
 
 
@@ -327,8 +334,10 @@ def matches_pattern():
     mod = parse(PU)
     f = find_func(mod, "matches_pattern")
     _params(f, ["path", "pattern"])
-    tr = Tr({"path": ("path", "str"), "pattern": ("pattern", "str"), "_matches_directory_pattern": ("matches_directory_pattern", "fn")})
-    out = defn("matches_pattern_gen (fnmatch : string -> string -> bool) (matches_directory_pattern : string -> string -> bool) (path pattern : string)",
+    # a recursive call is a call of the parameter `self_call` (the model ties the knot with fuel = length of the pattern)
+    tr = Tr({"path": ("path", "str"), "pattern": ("pattern", "str"), "_matches_directory_pattern": ("matches_directory_pattern", "fn"),
+             "matches_pattern": ("self_call", "fn")})
+    out = defn("matches_pattern_gen (self_call : string -> string -> bool) (fnmatch : string -> string -> bool) (matches_directory_pattern : string -> string -> bool) (path pattern : string)",
                "bool", stmts(tr, _body(f)))
     f = find_func(mod, "_matches_directory_pattern")
     _params(f, ["path", "pattern"])
@@ -356,16 +365,30 @@ def extract_patterns():
 
 
 def repo_ignore_sources():
-    """_load_repo_ignores: .thailintignore first, else the `ignore` list of .thailint.yaml, else nothing"""
+    """_load_repo_ignores.  Repaired shape: the patterns of .thailintignore plus the `ignore` list of the first existing config file
+    of a tuple of names.  Earlier shape: .thailintignore if it exists, else the list of .thailint.yaml, else nothing."""
     mod = parse(IGN)
     f = find_func(mod, "_load_repo_ignores")
-    got = [ast.unparse(s) for s in _body(f)]
-    if len(got) != 5 or not got[0].startswith("thailintignore = project_root / ") or got[1] != "if thailintignore.exists():\n    return _parse_thailintignore_file(thailintignore)" \
-            or not got[2].startswith("config_file = project_root / ") or got[3] != "if config_file.exists():\n    return _parse_config_file(config_file)" or got[4] != "return []":
-        raise Unsupported("_load_repo_ignores: structure changed")
     b = _body(f)
-    n1 = const_value(b[0].value.right)
-    n2 = const_value(b[2].value.right)
+    got = [ast.unparse(x) for x in b]
+    if (len(got) == 5 and got[0] == "patterns: list[str] = []" and got[1].startswith("thailintignore = project_root / ")
+            and got[2] == "if thailintignore.exists():\n    patterns.extend(_parse_thailintignore_file(thailintignore))"
+            and isinstance(b[3], ast.For) and ast.unparse(b[3].target) == "name" and not b[3].orelse
+            and [ast.unparse(x) for x in b[3].body] == ["config_file = project_root / name",
+                                                         "if config_file.exists():\n    patterns.extend(_parse_config_file(config_file))\n    break"]
+            and got[4] == "return patterns"):
+        n1 = const_value(b[1].value.right)
+        names = str_elems(b[3].iter)
+        combines = "true"
+    elif (len(got) == 5 and got[0].startswith("thailintignore = project_root / ")
+            and got[1] == "if thailintignore.exists():\n    return _parse_thailintignore_file(thailintignore)"
+            and got[2].startswith("config_file = project_root / ") and got[3] == "if config_file.exists():\n    return _parse_config_file(config_file)"
+            and got[4] == "return []"):
+        n1 = const_value(b[0].value.right)
+        names = [const_value(b[2].value.right)]
+        combines = "false"
+    else:
+        raise Unsupported("_load_repo_ignores: structure changed")
     g = find_func(mod, "_extract_ignore_patterns")
     gets = [n for n in ast.walk(g) if isinstance(n, ast.Call) and isinstance(n.func, ast.Attribute) and n.func.attr == "get"]
     if len(gets) != 1 or ast.unparse(gets[0].args[1]) != "[]":
@@ -374,8 +397,11 @@ def repo_ignore_sources():
     p = find_func(mod, "_parse_thailintignore_file")
     if "return extract_patterns_from_content(content)" not in ast.unparse(p):
         raise Unsupported("_parse_thailintignore_file: does not use extract_patterns_from_content")
-    return (defn("thailintignore_name", "string", coq_string(n1)) + defn("ignore_config_name", "string", coq_string(n2))
-            + defn("ignore_config_key", "string", coq_string(key)))
+    pc = ast.unparse(find_func(mod, "_parse_config_file"))
+    if "config = yaml.safe_load(config_file.read_text(encoding='utf-8'))" not in pc or "return _extract_ignore_patterns(config)" not in pc:
+        raise Unsupported("_parse_config_file changed")
+    return (defn("thailintignore_name", "string", coq_string(n1)) + defn("ignore_config_names", "list string", coq_str_list(names))
+            + defn("load_combines_sources", "bool", combines) + defn("ignore_config_key", "string", coq_string(key)))
 
 
 def cli_paths():
